@@ -471,13 +471,19 @@ func (e *Engine) installIntrinsics() {
 		return out
 	}
 	in["vSymbolicTypeName"] = func(fr *frame, a []Value) Value {
+		// the reflect name of this type becomes "<pkg>.T" + n solver-chosen bytes;
+		// native replays rename the declared identifier accordingly
 		itf := a[0].(Iface)
 		n := int(a[1].(int64))
-		base := e.reflectString(itf.T)
+		named, ok := itf.T.(*types.Named)
+		if !ok {
+			panic(engineErr("vSymbolicTypeName needs a named type"))
+		}
+		base := named.Obj().Pkg().Name() + ".T"
 		bs, _ := toByteStr(base)
 		out := &ByteStr{B: append([]Value(nil), bs.B...)}
 		for i := 0; i < n; i++ {
-			out.B = append(out.B, e.nameByte("type:"+base))
+			out.B = append(out.B, e.nameByte("typename:"+named.Obj().Name()))
 		}
 		e.symNames[typeKey(itf.T)] = out
 		return nil
